@@ -5,6 +5,7 @@ import (
 	auth "github.com/cosmos/cosmos-sdk/x/auth/types"
 	bankkeeper "github.com/cosmos/cosmos-sdk/x/bank/keeper"
 	banktypes "github.com/cosmos/cosmos-sdk/x/bank/types"
+	gethcommon "github.com/ethereum/go-ethereum/common"
 
 	"github.com/NibiruChain/nibiru/v2/eth"
 	"github.com/NibiruChain/nibiru/v2/x/evm"
@@ -255,6 +256,12 @@ func (bk *NibiruBankKeeper) SyncStateDBWithAccount(
 ) {
 	// If there's no StateDB set, it means we're not in an EthereumTx.
 	if ctx.IsCheckTx() || bk.StateDB == nil {
+		return
+	}
+	// Only 20-byte addresses have an EVM account. Mirroring the balance of a
+	// longer address (e.g. a 32-byte wasm contract address) into the account made
+	// of its last 20 bytes would mint or burn the difference at commit.
+	if len(acc) != gethcommon.AddressLength {
 		return
 	}
 
